@@ -58,7 +58,9 @@ func (rt *runtime) cmplEvaluateNodeStatement(node nodeStatement) Value {
 		return emptyValue
 
 	case *nodeExpressionStatement:
-		return rt.cmplEvaluateNodeExpression(node.expression)
+		// ES5 12.4: the completion value is GetValue of the expression, wherever the statement stands
+		// (an unresolvable identifier as the body of a loop, of an if or of a with raises its ReferenceError).
+		return rt.cmplEvaluateNodeExpression(node.expression).resolve()
 
 	case *nodeForInStatement:
 		return rt.cmplEvaluateNodeForInStatement(node)
